@@ -314,9 +314,10 @@ else:
                 return value
 
             if inspect.isclass(expected):
-                # If it's already the right type, accept it
+                # If it's already the right type, accept it (a bare container is
+                # copied, as under Pydantic, so the model does not alias its input)
                 if isinstance(value, expected):
-                    return value
+                    return expected(value) if expected in (dict, list) else value
 
                 # Type coercion for basic types
                 if expected is str:
